@@ -127,7 +127,7 @@ void run_case( vcase::Case const& c, size_t cap, bool adapter )
 
     std::vector<std::vector<std::pair<Obj *, long>>> held( N );
     g_current = &c;
-    g_deadline_ms.store( now_ms() + 2000 );
+    g_deadline_ms.store( now_ms() + 30000 );   // generous: only a genuinely spinning run reaches it, even on a loaded machine
     vcase::run_workers( c, [&]( int t ) {
         long idx = 0;
         for ( auto const& op : c.threads[t] ) {
